@@ -59,6 +59,11 @@ DBL_SPECIAL = [0.0, -0.0, math.inf, -math.inf, math.nan, 5e-324, -5e-324, 1.7976
 
 class C01(Prop):
     pid = "C01"
+    manifest = dict(
+        technique='Lean 4 theorems over Int for every operand pair (IntOps/UintOps exactness, never-wraps, reflected = direct), model regenerated from celtypes.py by py2lean + bridge theorems; differential correspondence vs. the Lean driver and an independent big-int / IEEE oracle',
+        text='proof: int64/uint64 + - * / % neg are proved exact-or-error for ALL integers (no bound), on definitions regenerated from celtypes.py on every run and proved equal to the model; double division by zero proved at IEEE class level; remaining double arithmetic is host IEEE, compared bit-for-bit',
+        note='Lean kernel; propext/Quot.sound/Classical.choice only; py2lean translator; CPython int semantics modelled by Int.fdiv/fmod; host binary64; lark',
+        ref='DESIGN.md §5 C01')
     lean_targets = ["Cel.Props.C01", "Cel.Bridge.Num"]
     audit_namespaces = ["Cel.Props.C01", "Cel.Bridge"]
     gen_names = ["Num"]
